@@ -7,7 +7,9 @@ logical callers, reuse of live objects through .open(), requests that must be re
 Real: esutil.sfile, esutil.recfile (Python + _records C++), esutil.io, glibc stdio, the kernel
 file system.  Oracles: in-memory table model, independent parser of the durable bytes.
 """
+import gc
 import os
+import weakref
 
 import numpy as np
 
@@ -732,6 +734,9 @@ def op_open_w(w, op, mods):
                 raise Skip("form mismatch")
             delim = m["delim"]
             kw = {"delim": delim} if (delim is not None and kind == "Recfile") else {}
+            if kind == "SFile" and exists and "kwdelim" in op and op["kwdelim"] != delim:
+                kw = {"delim": op["kwdelim"]} if op["kwdelim"] is not None else {}
+                run.fault("append_with_other_delim_keyword")
         if kind == "Recfile":
             if m is None:
                 raise Skip("Recfile r+ needs an existing file")
@@ -923,13 +928,25 @@ def op_close(w, op, mods):
     if h is None:
         raise Skip("no such handle")
     p = h["path"]
-    try:
-        h["obj"].close()
-    except Exception as e:
-        if w.prop in ("C03",):
-            run.fail("rec.close.raises", {"kind": h["kind"], "mode": h["mode"]}, "close raised %r" % (e,))
+    dropped = False
+    if op.get("drop") and h["role"] == "w":
+        # the caller never calls close(): the last reference to the object goes away (function returns, `del sf`)
+        ref = weakref.ref(h["obj"])
+        h["obj"] = None
+        gc.collect()
+        if ref() is None:
+            dropped = True
+            run.fault("writer_dropped_without_close")
+        else:
+            h["obj"] = ref()        # something else still refers to it: close it the ordinary way
+    if not dropped:
+        try:
+            h["obj"].close()
+        except Exception as e:
+            if w.prop in ("C03",):
+                run.fail("rec.close.raises", {"kind": h["kind"], "mode": h["mode"]}, "close raised %r" % (e,))
     del w.handles[op["h"]]
-    run.event(op.get("c", 0), "close", p, "ok")
+    run.event(op.get("c", 0), "close", p, "dropped" if dropped else "ok")
     if h["role"] == "w":
         m = w.files.get(p)
         if m is not None:
@@ -973,6 +990,10 @@ def op_append(w, op, mods):
     before = w.raw(p) if exists else None
     path = w.epath(p)
     dkw = {"delim": delim} if delim is not None else {}
+    if "kwdelim" in op and m is not None and exists and m["form"] == "sfile" and op["kwdelim"] != delim:
+        # the file exists: the delim= keyword is documented as ignored, the form comes from the file's header
+        dkw = {"delim": op["kwdelim"]} if op["kwdelim"] is not None else {}
+        run.fault("append_with_other_delim_keyword")
     if w.prop == "C15" and op.get("wopts"):
         dkw.update(op["wopts"])
         run.fault("writer_option_" + "+".join(sorted(op["wopts"])))
